@@ -367,7 +367,7 @@ def differs(a, b):
             continue
         if fx != fx or fy != fy:
             return True
-        if abs(fx - fy) > 1e-9 * max(1.0, abs(fx), abs(fy)):
+        if abs(fx - fy) > 1e-6 * max(1.0, abs(fx), abs(fy)):
             return True
     return False
 
@@ -526,8 +526,8 @@ def attempt(prop, violations, anchors, exp, repo, workdir, timeout=420):
             if best:
                 break
         if best:
-            notes.append(dict(tag=v['tag'], found=True, call=call,
-                              source='the refuted ensures clause evaluated on the real code (T = f64, tolerance 1e-9): true at HEAD, false in the working tree; '
+            notes.append(dict(tag=v['tag'], fn=v.get('fn'), found=True, call=call,
+                              source='the refuted ensures clause evaluated on the real code (T = f64, tolerance 1e-6): true at HEAD, false in the working tree; '
                                      'every requires clause evaluated to true on this input', **best))
         elif diff and c is not None and not c.requires and not any(_top_level_implication(c.ensures[k]) for k in (sp['clauses'] or range(len(c.ensures)))
                                                                    if k < len(c.ensures)):
@@ -543,7 +543,7 @@ def attempt(prop, violations, anchors, exp, repo, workdir, timeout=420):
             n_req = len([1 for r_ in rws if '0' not in r_[3] and 'p' not in r_[3] and 'u' not in r_[3]])
             evaluated = bool(sp.get('eval')) and bool(rws) and any(ch in '01' for r_ in rws[:50] for ch in r_[5])
             no_panic_gap = not any((r_[1] == 'PANIC') != (r_[2] == 'PANIC') for r_ in rws)
-            notes.append(dict(tag=v['tag'], found=False, call=call,
+            notes.append(dict(tag=v['tag'], fn=v.get('fn'), found=False, call=call,
                               indistinguishable=bool(evaluated and len(rws) == TRIALS and n_req >= 100 and no_panic_gap),
                               trials=len(rws), trials_with_requires_true=n_req,
                               reason='%d pseudo-random inputs (generic, special-value, affine and repeated-value modes): no input refutes a clause, '
